@@ -190,6 +190,28 @@ func runC04(c *core.Ctx) {
 				cs.C.Res.HarnessErrors = append(cs.C.Res.HarnessErrors, "reference cannot encode generated TWCC: "+err.Error())
 				return
 			}
+			// RFC 3550 padding may be whole words: 1..3 (now and then up to the maximum count 255)
+			// extra padding words after the deltas, the padding bit set, the last octet the count
+			if kk >= 2 && r.Chance(2, 3) {
+				b := cloneBytes(e.B)
+				oldPad := 0
+				if b[0]&0x20 != 0 {
+					oldPad = int(b[len(b)-1])
+					b[len(b)-1] = r.U8() // no longer the last octet: content of padding is free
+				}
+				words := 1 + r.Intn(3)
+				if r.Chance(1, 10) {
+					words = (255 - oldPad) / 4
+				}
+				if words >= 1 && oldPad+4*words <= 255 && len(b)+4*words <= 65532 {
+					b = append(b, r.Bytes(4*words)...)
+					b[len(b)-1] = byte(oldPad + 4*words)
+					b[0] |= 0x20
+					gen.FitLength(b)
+					e = &ref.Enc{B: b}
+					cs.Count("twcc-chunking/extra-padding-words")
+				}
+			}
 			cs.Distinct(core.Digest(e.B))
 			cs.Count("twcc-chunking")
 			for _, via := range []string{"own", "datagram"} {
